@@ -178,7 +178,9 @@ func (r *runner) run(src string, b builder, names []NameQ, ids []IDQ) error {
 		for k := range seen {
 			keys = append(keys, k)
 		}
-		sort.Slice(keys, func(i, j int) bool { return keys[i].id < keys[j].id || (keys[i].id == keys[j].id && !keys[i].ok && keys[j].ok) })
+		sort.Slice(keys, func(i, j int) bool {
+			return keys[i].id < keys[j].id || (keys[i].id == keys[j].id && !keys[i].ok && keys[j].ok)
+		})
 		for _, k := range keys {
 			r.emit(Rec{Kind: "id", V: v, C: q.C, N: q.N, Found: k.ok, RID: k.id, Cnt: seen[k]})
 		}
